@@ -30,6 +30,7 @@ type Harness struct {
 	File     string
 	ExpectAbort []string // abort reasons (substring) that are part of the stated bounds
 	QTimeout int
+	ShardDepth int
 }
 
 var annRe = regexp.MustCompile(`(?m)^// verif:harness (.*)\n((?://.*\n)*)func (Verif\w+)\(\)`)
@@ -67,6 +68,8 @@ func scanHarnesses() ([]Harness, error) {
 					h.Weight, _ = strconv.Atoi(v)
 				case "maxpaths":
 					h.MaxPaths, _ = strconv.Atoi(v)
+				case "sharddepth":
+					h.ShardDepth, _ = strconv.Atoi(v)
 				case "qtimeout":
 					h.QTimeout, _ = strconv.Atoi(v)
 				default:
